@@ -98,6 +98,12 @@ def check_existing(ctx, doc, loc, val, tag=None):
 
             enc_toks = [urllib.parse.quote(t, safe="") for t in toks]
             enc_text = "".join("/" + urllib.parse.quote(rp.encode_token(t), safe="") for t in toks)
+            # (and the sparing spelling a URI fragment allows: sub-delimiters such as '+', '=', '&', ':' and '@' left as they are)
+            frag = "!$&'()*+,;=:@?"
+            min_toks = [urllib.parse.quote(t, safe=frag) for t in toks]
+            min_text = "".join("/" + urllib.parse.quote(rp.encode_token(t), safe=frag) for t in toks)
+            routes["from_parts(sparingly percent-encoded, uri_decode).resolve"] = lambda: JSONPointer.from_parts(min_toks, unicode_escape=ue, uri_decode=True).resolve(doc)
+            routes["JSONPointer(sparingly percent-encoded text, uri_decode).resolve"] = lambda: JSONPointer(min_text, unicode_escape=ue, uri_decode=True).resolve(doc)
             routes["from_parts(percent-encoded, uri_decode).resolve"] = lambda: JSONPointer.from_parts(enc_toks, unicode_escape=ue, uri_decode=True).resolve(doc)
             routes["from_parts(generator of percent-encoded, uri_decode).resolve"] = lambda: JSONPointer.from_parts((t for t in enc_toks), unicode_escape=ue, uri_decode=True).resolve(doc)
             routes["JSONPointer(percent-encoded text, uri_decode).resolve"] = lambda: JSONPointer(enc_text, unicode_escape=ue, uri_decode=True).resolve(doc)
